@@ -673,7 +673,36 @@ impl<'a> Builder<'a> {
         self.feature("self_modify");
     }
 
+    /// A string laid across the top of memory (0xFFFx .. 0x000x) at run time, then printed:
+    /// string walks must wrap modulo 2^16 like every other address.
+    fn wrap_string(&mut self, sub: bool) {
+        let before = 1 + self.rng.below(3) as u16; // characters below 0x10000
+        let after = 1 + self.rng.below(3) as u16; // characters from 0x0000 on
+        let packed = self.rng.coin();
+        let start = 0u16.wrapping_sub(before);
+        let ptr = self.data_cell("Top", start);
+        self.emit_to(sub, format!("ld r4, {}", ptr));
+        for i in 0..(before + after) {
+            let lo = 0x41 + self.rng.below(26) as u16;
+            let word = if packed { ((0x61 + self.rng.below(26) as u16) << 8) | lo } else { lo };
+            let cell = self.data_cell("Ch", word);
+            let r = self.scratch();
+            self.emit_to(sub, format!("ld r{}, {}", r, cell));
+            self.emit_to(sub, format!("str r{}, r4, #{}", r, i));
+        }
+        // Terminator (memory there may hold anything by now)
+        let r = self.scratch();
+        self.emit_to(sub, format!("and r{}, r{}, #0", r, r));
+        self.emit_to(sub, format!("str r{}, r4, #{}", r, before + after));
+        self.emit_to(sub, "add r0, r4, #0".to_string());
+        self.emit_to(sub, if packed { "putsp" } else { "puts" }.to_string());
+        self.feature("string_across_top_of_memory");
+    }
+
     fn output(&mut self, sub: bool) {
+        if self.rng.chance(1, 14) {
+            return self.wrap_string(sub);
+        }
         match self.rng.below(if self.opts.minimal { 6 } else { 5 }) {
             0 => {
                 let (text, words) = random_string(self.rng);
